@@ -25,6 +25,7 @@ import BumpProof.Coll.Vecs
 import BumpProof.Coll.Iter
 import BumpProof.Coll.Split
 import BumpProof.Coll.Rev
+import BumpProof.Coll.Splice
 
 namespace Driver.CollD
 open Coll
@@ -145,6 +146,11 @@ def runSpecial (env : Env) (v : Vec) (name : String) (args : List Nat) (o : List
     let script ← parseScript ((kvOf rest "s").getD "-")
     let fin ← match (kvOf rest "fin").getD "d" with | "d" => some Fin.drop | "k" => some Fin.keepRest | _ => none
     pure ((pack showYields (drain env.bombs v s e script fin)).map (fun (a, b, _) => (a, b, o)), false)
+  | "splice", [a, b] => do
+    let src ← (kvOf rest "src").bind parseCsv
+    let pulls := ((kvOf rest "pulls").bind String.toNat?).getD 0
+    let hint := ((kvOf rest "hint").bind String.toNat?).getD 1000000
+    pure ((pack showYields (splice env v a b src hint (List.replicate pulls Pull.front))).map (fun (a, b, _) => (a, b, o)), false)
   | "extract_if", [calls] => some (pack csv (extractIf v calls o), false)
   | "into_iter", [] => do
     let script ← parseScript ((kvOf rest "s").getD "-")
